@@ -20,9 +20,9 @@ vars == <<cs, phase, res>>
 
 
 \* ------------------------------------------------------------ pools
-NR1 == {"float64", "int", "int8", "uint8", "int64", "uint64", "float32", "jsonNumber", "jsonNumberE", "namedInt"}
+NR1 == {"float64", "int", "int8", "uint8", "int64", "uint64", "float32", "jsonNumber", "jsonNumberE", "namedInt", "negzero"}
 NR2 == {"float64", "int", "jsonNumber"}
-AR == {"any", "typed", "array"}
+AR == {"any", "typed", "array", "arrayany"}
 OR == {"any", "typed", "namedkey"}
 Wraps == {<<>>, <<"ptr">>, <<"iface", "ptr">>}
 
@@ -41,11 +41,11 @@ EQPool(z) ==
   \cup UNION {WithWraps(RepsOf(v, NR2, AR, OR), {<<>>, <<"ptr">>}) : v \in PlainContainers}
 
 \* ------------------------------------------------------------ uniqueItems / enum / const
-UAElems == {Num(R_1), Num(R_m1), Str("1"), Null, Bool(TRUE), Arr(<<Num(R_m1)>>), Obj([a |-> Num(R_1)])}
+UAElems == {Num(R_0), Num(R_m1), Str("1"), Null, Bool(TRUE), Arr(<<Num(R_m1)>>), Obj([a |-> Num(R_0)])}
                \cup (IF K >= 2 THEN {Str("a"), Num(R_2), Obj([a |-> Num(R_1), b |-> Num(R_2)])} ELSE {})
 UAPlain(z) == {Arr(e) : e \in UNION {[1..n -> UAElems] : n \in 0..(IF K >= 2 THEN 3 ELSE 2)}}
               \cup {Arr(<<Num(R_1), Num(R_2), Num(R_0), x, Num(R_1h)>>) : x \in {Num(R_1), Num(R_4), Num(R_0)}}
-UAReps(v) == RepsOf(v, IF K >= 2 THEN {"float64", "int", "jsonNumber"} ELSE {"float64", "jsonNumberE", "jsonNumber"}, {"any", "typed", "array"}, {"any", "typed"})
+UAReps(v) == RepsOf(v, IF K >= 2 THEN {"float64", "int", "jsonNumber"} ELSE {"float64", "jsonNumber", "negzero"}, {"any", "arrayany", "array"}, IF K >= 2 THEN {"any", "typed"} ELSE {"any"})
 UASchemas == <<[uniqueItems |-> TRUE],
                [enum |-> <<Num(R_1), Str("a"), Arr(<<Num(R_m1)>>), Obj([a |-> Num(R_1)]), Arr(<<Num(R_1), Num(R_m1)>>), Null>>],
                [const |-> Arr(<<Num(R_m1)>>)], [const |-> Arr(<<Num(R_1), Num(R_1)>>)],
@@ -56,11 +56,12 @@ UASchemas == <<[uniqueItems |-> TRUE],
 \* ------------------------------------------------------------ RV representation independence
 RVPlain ==
   {Num(R_1), Num(R_1h), Num(R_3), Num(R_256), Num(R_2p53p1), Str("a"), Str("U_e1"), Str("1"), Null, Bool(TRUE),
-   Arr(<<Num(R_1), Num(R_1)>>), Arr(<<Num(R_1), Num(R_3)>>), Arr(<<Str("a")>>), Arr(<<Arr(<<Num(R_1)>>)>>),
+   Arr(<<Num(R_1), Num(R_1)>>), Arr(<<Num(R_1), Num(R_3)>>), Arr(<<Str("a")>>), Arr(<<Arr(<<Num(R_1)>>)>>), Num(R_0),
+   Arr(<<Arr(<<Num(R_1)>>), Arr(<<Num(R_1)>>)>>), Arr(<<Num(R_0), Num(R_0)>>),
    Obj([a |-> Num(R_1)]), Obj([a |-> Num(R_3), b |-> Num(R_1)]), Obj([a |-> Arr(<<Num(R_1)>>)]),
    Arr(<<Obj([a |-> Num(R_1)])>>), Obj([ab |-> Str("a")]), EmptyObj, EmptyArr}
 RVReps(z) ==
-  UNION {WithWraps(RepsOf(v, IF K >= 2 THEN NR1 ELSE {"float64", "int", "uint8", "jsonNumberE", "jsonNumber", "namedInt"}, AR, OR),
+  UNION {WithWraps(RepsOf(v, IF K >= 2 THEN NR1 ELSE {"float64", "int", "jsonNumberE", "jsonNumber"}, AR, OR),
                    IF v.t \in {"arr", "obj"} THEN {<<>>, <<"ptr">>} ELSE Wraps) : v \in RVPlain}
 IntS == [type |-> "integer"]
 RVSchemas ==
@@ -82,8 +83,9 @@ RVSchemas ==
 
 \* ------------------------------------------------------------ machine
 Single(s) == [docs |-> <<[uri |-> EmptyURI, s |-> s]>>]
-EQSeq == SetToSeq(EQPool(0))
-RVSeq == SetToSeq(RVReps(0))
+\* (zero-arity constants are evaluated eagerly by TLC, whatever the family: guard them)
+EQSeq == IF Family = "EQ" THEN SetToSeq(EQPool(0)) ELSE <<>>
+RVSeq == IF Family = "RV" THEN SetToSeq(RVReps(0)) ELSE <<>>
 
 Cases ==
   CASE Family = "EQ" -> EQPool(0)
